@@ -10,17 +10,12 @@
     computation: see [C11_mspq_capacities] (true for cap + 1 = 2^k, the only capacities buffers with Exp2 = true
     can have) and [C11_mspq_unsafe_capacities] (false for 5, 9..13: the code does not reject them).
 
-    ------------------------------------------------------------------------------------------------------------
-    FCPriorityQueue half (owned by the flat-combining work): when coq/Proofs/FcContainers.v exists, add here
-        From LV Require Import Proofs.FcContainers.
-        Theorem C11_fcpq_linearizable : <statement of fcpq_linearizable>.  Proof. exact fcpq_linearizable. Qed.
-        Print Assumptions C11_fcpq_linearizable.
-    Until then the first sentence of C11 is NOT covered by this file (checks/C11.py records in the evidence
-    whether checks/C11fc.py ran).
-    ------------------------------------------------------------------------------------------------------------ *)
+    The FCPriorityQueue half (first sentence of C11) is cited from LV.Proofs.FcContainers (flat-combining work) at
+    the end of this file: [C11_fcpq_linearizable_partial]. *)
 From Coq Require Import ZArith List String Permutation.
 From LV Require Import Base.Conc Base.Events Base.Lin Spec.Specs Model.MsPq
-  Proofs.MsPqBrc Proofs.MsPqInv Proofs.MsPqProofs Proofs.MsPqSeq Proofs.MsPqPhase Proofs.MsPqBounds.
+  Proofs.MsPqBrc Proofs.MsPqInv Proofs.MsPqProofs Proofs.MsPqHeap Proofs.MsPqSeq Proofs.MsPqPhase Proofs.MsPqBounds Proofs.MsPqPush.
+Require LV.Model.FcKernel LV.Model.FcBatch LV.Proofs.FcBatchProofs LV.Proofs.FcKernelProofs LV.Proofs.FcContainers.
 Import ListNotations.
 Local Open Scope Z_scope.
 Local Open Scope string_scope.
@@ -97,6 +92,35 @@ Theorem C11_mspq_phase_linearizable_partial :
 Proof. exact mspq_phase_linearizable_partial. Qed.
 Print Assumptions C11_mspq_phase_linearizable_partial.
 
+(** ** push-only phases (tag invariant of Hunt et al., LV.Proofs.MsPqPush): for EVERY schedule of any number of
+    threads, as long as no pop has been invoked, whenever all pushes have returned the heap is a max-heap --
+    [Good n h tg]: the cells in use are exactly the first n = m_ItemCounter slots, every cell in use is tagged
+    Available and is not larger than its parent -- holding exactly the successfully pushed items.  (The invariant
+    behind it, at every instant: a cell tagged with a thread id is the one that thread is bubbling, and an Available
+    cell is not larger than any of its ancestors.)  The pop-only counterpart and the composition into
+    [C11_mspq_phase_linearizable_statement] are not proved: see LV.Proofs.MsPqPhase. *)
+Theorem C11_mspq_push_phase_heap :
+  forall cap, slots_ok cap = true -> shape_ok cap = true ->
+  forall (hf lf : nat) (ths : list (list MsPq.op)) c,
+    Conc.reach (MsPq.init_cfg cap hf lf ths) c ->
+    pop_invoked (Conc.trace c) = false -> (forall t, pend (Conc.trace c) t = false) ->
+    Good (count (Conc.shared c)) (cellv (Conc.shared c)) (cellt (Conc.shared c)) /\
+    Permutation (heap_items cap (Conc.shared c) ++ given_back (Conc.trace c)) (invoked (Conc.trace c)).
+Proof. exact mspq_push_phase_heap. Qed.
+Print Assumptions C11_mspq_push_phase_heap.
+
+(** non-vacuity: three threads push concurrently into a heap of capacity 7; at the end the six cells in use are
+    in heap order *)
+Example C11_mspq_push_phase_nonvacuous :
+  let r := Conc.run 3000 0 [0;1;2;2;1;0;0;0;1;2;1;1;2;0;2;2;1;0;1;2;0;0;1;2;2;2;1;1;0]%nat
+             (MsPq.init_cfg 7 60 60 [[OPush (1, 1); OPush (5, 2)]; [OPush (3, 3); OPush (5, 4)]; [OPush (4, 5); OPush (2, 6)]]) in
+  snd r = true /\ pop_invoked (Conc.trace (fst r)) = false /\ count (Conc.shared (fst r)) = 6%nat /\
+  forallb (fun k => match cellv (Conc.shared (fst r)) k, cellv (Conc.shared (fst r)) (Nat.div2 k) with
+                    | Some x, Some y => Z.leb (prio x) (prio y) | Some _, None => false | None, _ => true end)
+          (seq 2 6) = true /\
+  List.length (heap_items 7 (Conc.shared (fst r))) = 6%nat.
+Proof. vm_compute. repeat split; reflexivity. Qed.
+
 (** ** capacities *)
 Theorem C11_mspq_capacities :
   forall k, (k <= 8)%nat -> slots_ok (2 ^ k - 1) = true /\ shape_ok (2 ^ k - 1) = true.
@@ -157,3 +181,17 @@ Example C11_mspq_sequential_nonvacuous :
   phist (Conc.trace (fst r)) = spec_hist 3 [] os /\
   spec_hist 3 [] os = [[1;2]; [2;1]; [1;2]; [2;1]; [1;1]; [2;1]; [1;3]; [2;0]; [3]; [4;1;2]; [3]; [4;1;2]; [3]; [4;1;1]; [3]; [4;0;0]; [3]; [4;0;0]].
 Proof. vm_compute. repeat split; reflexivity. Qed.
+
+(** ** FCPriorityQueue (model LV.Model.FcKernel + FcBatch, proofs LV.Proofs.FcContainers -- flat-combining work).
+    For every schedule, any number of threads, compact factor and combine pass count: on traces without the
+    model's "lost" event the history of the FCPriorityQueue model is linearizable to the sequential max-priority
+    queue Specs.PQueue (linearization point = execution by the combiner).  The hypothesis [has_lost = false] is the
+    part the flat-combining work has not yet discharged. *)
+Theorem C11_fcpq_linearizable_partial :
+  forall (chk : bool) (fuel mask npass : nat) ths c,
+    FcKernelProofs.ops_ok FcBatch.s_okop ths ->
+    Conc.reach (FcContainers.pq_init_cfg chk fuel mask npass ths) c ->
+    FcKernelProofs.has_lost (Conc.trace c) = false ->
+    linearizable PQueue (FcContainers.fc_history PQueue FcBatch.res_dec FcBatch.s_dec (Conc.trace c)).
+Proof. exact FcContainers.fcpq_linearizable_partA. Qed.
+Print Assumptions C11_fcpq_linearizable_partial.
